@@ -162,8 +162,10 @@ TouchesShared(pre, post, d, src, cpy) == Changed(pre, post) \cap AllowedEither(p
 (*         bipartitions of trees, the character subsets of matrices        *)
 (*   ann   per annotable in structural order [c |-> comments, a |->        *)
 (*         annotations by value]                                           *)
-(*   bnd   per annotable: is the annotation set's target its owner, and    *)
-(*         per bound annotation: is it bound to the owner                  *)
+(*   bnd   per annotable: t - is the annotation set's target its owner;    *)
+(*         per bound annotation: b - is it bound to the owner (1) or to    *)
+(*         another object (2), v - its value read through the annotation,  *)
+(*         o - the attribute read from the owner itself                    *)
 (*   full  [k, c]: canonical identity-free serialisation of everything     *)
 (*         else reachable (extra attributes, containers, caches)           *)
 (*   ns    the namespace by value (labels in order, codes, annotations,    *)
@@ -213,12 +215,13 @@ ViewEqClause(d, vs, vc) ==
       [] OTHER -> "undefined-depth"
 
 \* BoundAnnotationsFollowCopy: bindings of the copy mirror the source's, and every bound annotation reads its owner's attribute
-BoundReadsOwner(v) == \A i \in 1..Len(v.ann) : \A j \in 1..Len(v.ann[i].a) :
-                          LET a == v.ann[i].a[j] IN (a.bound /\ a.self) => a.val = a.own
+BoundReadsOwner(v) == \A i \in 1..Len(v.bnd) : \A k \in 1..Len(v.bnd[i].b) :
+                          v.bnd[i].b[k] = 1 => v.bnd[i].v[k] = v.bnd[i].o[k]
+BndShape(v) == [i \in 1..Len(v.bnd) |-> <<v.bnd[i].t, v.bnd[i].b>>]
 BoundClause(d, vs, vc) ==
     IF d = "Thin" THEN "ok"
-    ELSE IF d = "Shallow" /\ vs.bnd[1] # vc.bnd[1] THEN "binding"
-    ELSE IF d # "Shallow" /\ vs.bnd # vc.bnd THEN "binding"
+    ELSE IF d = "Shallow" /\ BndShape(vs)[1] # BndShape(vc)[1] THEN "binding"
+    ELSE IF d # "Shallow" /\ BndShape(vs) # BndShape(vc) THEN "binding"
     ELSE IF ~BoundReadsOwner(vc) THEN "value"
     ELSE "ok"
 
@@ -343,13 +346,14 @@ ModelView(g, root) ==
                         L == OfKind(g, CSeqToSet(g.succ[x]), {"list"})
                         aq == IF S = {} THEN <<>> ELSE SelectSeq(g.succ[CMin(S)], LAMBDA y : g.kind[y] = "Annotation")
                     IN [c |-> IF L = {} THEN <<>> ELSE <<g.dig[CMin(L)]>>,
-                        a |-> [j \in 1..Len(aq) |-> [bound |-> g.succ[aq[j]] # <<>>, self |-> g.succ[aq[j]] # <<>>, name |-> g.dig[aq[j]],
-                                                      val |-> IF g.succ[aq[j]] # <<>> THEN g.dig[g.succ[aq[j]][1]] ELSE g.dig[aq[j]],
-                                                      own |-> IF g.succ[aq[j]] # <<>> THEN g.dig[x] ELSE 0]]]
+                        a |-> [j \in 1..Len(aq) |-> [bound |-> g.succ[aq[j]] # <<>>, name |-> g.dig[aq[j]],
+                                                      val |-> IF g.succ[aq[j]] # <<>> THEN g.dig[g.succ[aq[j]][1]] ELSE g.dig[aq[j]]]]]
         bndof(x) == LET S == OfKind(g, CSeqToSet(g.succ[x]), {"AnnotationSet"})
                         aq == IF S = {} THEN <<>> ELSE SelectSeq(g.succ[CMin(S)], LAMBDA y : g.kind[y] = "Annotation" /\ g.succ[y] # <<>>)
                     IN [t |-> IF S = {} THEN 0 ELSE IF g.succ[CMin(S)] # <<>> /\ g.succ[CMin(S)][1] = x THEN 1 ELSE 2,
-                        b |-> [j \in 1..Len(aq) |-> IF g.succ[aq[j]][1] = x THEN 1 ELSE 2]]
+                        b |-> [j \in 1..Len(aq) |-> IF g.succ[aq[j]][1] = x THEN 1 ELSE 2],
+                        v |-> [j \in 1..Len(aq) |-> g.dig[g.succ[aq[j]][1]]],
+                        o |-> [j \in 1..Len(aq) |-> g.dig[x]]]
         fullk == AllKinds \ NsKinds        \* a namespace root has everything in its ns view
         fo == Order(g, root, fullk)
         fc == CanonOf(g, root, fullk, TRUE)
